@@ -3117,7 +3117,7 @@ class QuaternionArray(np.ndarray):
                [ 0.9370473 ,  0.10659342, -0.20136569,  0.26463573]])
         """
         _assert_iterables(q, 'Quaternion')
-        q = np.copy(q)
+        q = np.array(q, dtype=float)    # A copy of floats: it is normalized in place, also when integers are given
         if q.size != 4:
             raise ValueError("Given quaternion to rotate about must have 4 elements.")
         q /= np.linalg.norm(q)
